@@ -30,37 +30,34 @@ def run(ck: Check, prog: Program) -> None:
         raise AnalysisError('PjRpcMocker._match_request / _on_request not found')
     ck.functions |= {mr.qualname, onr.qualname}
     cfg = CFG(mr, prog)
-    # ---- ROTATE ------------------------------------------------------------------------------------
-    pops = [(n, c) for n in cfg.stmt_nodes() for c in calls_in(n) if isinstance(c.func, ast.Attribute) and c.func.attr == 'pop'
-            and isinstance(n.ast, ast.Assign)]
+    # ---- ROTATE: abstract execution of the list operations on the patch list ----------------------------------
     problems: List[Tuple[str, str, int, str]] = []
-    if len(pops) != 1:
-        raise AnalysisError(f'{mr.qualname}: expected one pop() selecting the patch, found {len(pops)}')
-    pn, pc = pops[0]
-    lst = dotted(pc.func.value)
-    mvar = list(assigned_names(pn))[0]
-    head = len(pc.args) == 1 and isinstance(pc.args[0], ast.Constant) and pc.args[0].value == 0
-    if not head:
-        problems.append(('ROTATE', 'patch is not taken from the head', pn.line,
-                         f'`{norm(pn.ast)}`: patches for a (endpoint, method) pair must be used in round-robin order of their addition: '
-                         f'pop(0) takes the oldest, `{norm(pc)}` does not'))
-    apps = [(n, c) for n in cfg.stmt_nodes() for c in calls_in(n) if isinstance(c.func, ast.Attribute) and c.func.attr in ('append', 'insert')
-            and dotted(c.func.value) == lst and c.args and dotted(c.args[-1]) == mvar]
-    if len(apps) != 1:
-        problems.append(('ROTATE', f'{len(apps)} re-append statements', pn.line, 'the used patch must be re-appended exactly once, at the tail, unless `once`'))
-    else:
-        an, ac = apps[0]
-        if ac.func.attr != 'append':
-            problems.append(('ROTATE', 're-insert is not at the tail', an.line, f'`{norm(ac)}` must append the patch at the tail'))
-        outer = {id(g) for g in guard_edges(cfg, pn)}
-        gs = [g for g in guard_edges(cfg, an) if id(g) not in outer]
-        ok = any(classify_cond(prog, mr, g.src.ast).subject == f'{mvar}.once' and classify_cond(prog, mr, g.src.ast).kind == 'truthy' and
-                 ((g.label == 'F') != classify_cond(prog, mr, g.src.ast).negated) for g in gs) and len(gs) == 1
-        if not ok:
-            problems.append(('ROTATE', 're-append is not guarded by `not once`', an.line,
-                             f'the patch must be re-appended iff it is not marked once; guards: {[norm(g.src.ast) + ":" + g.label for g in gs]}'))
-        if an.id not in cfg.reachable(pn):
-            problems.append(('ROTATE', 're-append precedes the pop', an.line, 'order of pop / append'))
+    sel_var, lst_var = _rotation_vars(mr)
+    sims = 0
+    for n_items in (1, 2, 3):
+        for once in (False, True):
+            outs = simulate_rotation(prog, mr, cfg, lst_var, sel_var, n_items, once)
+            sims += len(outs)
+            want_sel = 's0'
+            want_lst = tuple(f's{k}' for k in range(1, n_items)) + (() if once else ('s0',))
+            for line, lst, sel in outs:
+                if sel != want_sel or lst != want_lst:
+                    problems.append(('ROTATE', f'patch rotation wrong for {n_items} patch(es), once={once}', line,
+                                     f'abstract execution of the list operations on `{lst_var}` starting from [{", ".join(f"s{k}" for k in range(n_items))}] with '
+                                     f'head.once={once}: the call is answered by {sel} and the list becomes [{", ".join(lst)}]; required: answered by '
+                                     f'{want_sel} (the oldest patch) and the list [{", ".join(want_lst)}] (the used patch re-appended at the tail iff it is not `once`)'))
+    if sims < 6:
+        raise AnalysisError(f'{mr.qualname}: patch rotation could not be followed')
+    # de-duplicate (same defect shows for several list lengths)
+    seen_c = set()
+    problems = [p_ for p_ in problems if not (p_[1].split(' for ')[0] in seen_c or seen_c.add(p_[1].split(' for ')[0]))][:2] if problems else []
+    pn = None
+    for n in cfg.stmt_nodes():
+        if any(isinstance(c.func, ast.Attribute) and c.func.attr == 'pop' and dotted(c.func.value) == lst_var for c in calls_in(n)):
+            pn = n
+            break
+    if pn is None:
+        raise AnalysisError(f'{mr.qualname}: no pop() on the patch list')
     cl = [(n, c) for n in cfg.stmt_nodes() for c in calls_in(n) if dotted(c.func) == 'self._cleanup_matches']
     if not cl or not all(n.id in cfg.reachable(pn) for n, _ in cl):
         problems.append(('ROTATE', 'emptied keys are not cleaned up after a once-patch is consumed', pn.line,
@@ -217,6 +214,152 @@ def run(ck: Check, prog: Program) -> None:
     ck.ob('ROTATE', 'replace overwrites the patch at the given index', ok_rep, nontrivial=False)
     if not ok_rep:
         ck.finding('ROTATE', ci.qualname + '.replace', 'replace does not overwrite index idx', ci.module.rel, rep.node.lineno if rep else 0, '')
+
+
+def _rotation_vars(mr: FuncInfo) -> Tuple[str, str]:
+    """(variable holding the selected patch, variable holding the patch list)."""
+    sel = None
+    for x in walk_own(mr.node):
+        if isinstance(x, ast.Attribute) and x.attr in ('response_data', 'callback') and isinstance(x.value, ast.Name):
+            sel = x.value.id
+    lst = None
+    for x in walk_own(mr.node):
+        if isinstance(x, ast.Assign) and isinstance(x.targets[0], ast.Name) and isinstance(x.value, ast.Call) and \
+                isinstance(x.value.func, ast.Attribute) and x.value.func.attr == 'get' and '_matches' in norm(x.value.func.value):
+            lst = x.targets[0].id
+    if sel is None or lst is None:
+        raise AnalysisError(f'{mr.qualname}: selected-patch / patch-list variables not recognised')
+    return sel, lst
+
+
+def simulate_rotation(prog: Program, mr: FuncInfo, cfg: CFG, lst_var: str, sel_var: str, n_items: int, once: bool):
+    """Abstract execution of the statements that touch the patch list: returns [(line, final list, selected symbol)] for every
+    path up to the point where the call is recorded.  Only the list operations are interpreted (pop / append / insert / index /
+    del / remove on symbols); nothing of pjrpc is executed."""
+    init = tuple(f's{k}' for k in range(n_items))
+    results = []
+
+    class Unknown(Exception):
+        pass
+
+    def ev(e: ast.expr, lst, env):
+        """returns (value symbol or None, new list)"""
+        if isinstance(e, ast.Name):
+            return env.get(e.id), lst
+        if isinstance(e, ast.Subscript) and dotted(e.value) == lst_var:
+            if isinstance(e.slice, ast.Constant) and isinstance(e.slice.value, int):
+                try:
+                    return lst[e.slice.value], lst
+                except IndexError:
+                    raise Unknown('index out of range')
+            if isinstance(e.slice, ast.UnaryOp) and isinstance(e.slice.op, ast.USub) and isinstance(e.slice.operand, ast.Constant):
+                return lst[-e.slice.operand.value], lst
+            raise Unknown(norm(e))
+        if isinstance(e, ast.Call) and isinstance(e.func, ast.Attribute) and dotted(e.func.value) == lst_var:
+            m = e.func.attr
+            args = []
+            for a in e.args:
+                if isinstance(a, ast.Constant):
+                    args.append(a.value)
+                elif isinstance(a, ast.UnaryOp) and isinstance(a.op, ast.USub) and isinstance(a.operand, ast.Constant):
+                    args.append(-a.operand.value)
+                else:
+                    v, lst = ev(a, lst, env)
+                    args.append(v)
+            l2 = list(lst)
+            if m == 'pop':
+                if not l2:
+                    raise Unknown('pop from empty list')
+                v = l2.pop(*[a for a in args[:1]])
+                return v, tuple(l2)
+            if m == 'append':
+                l2.append(args[0])
+                return None, tuple(l2)
+            if m == 'insert':
+                l2.insert(args[0], args[1])
+                return None, tuple(l2)
+            if m == 'remove':
+                l2.remove(args[0])
+                return None, tuple(l2)
+            if m == 'extend' and e.args and isinstance(e.args[0], (ast.List, ast.Tuple)):
+                for el in e.args[0].elts:
+                    v, _ = ev(el, lst, env)
+                    l2.append(v)
+                return None, tuple(l2)
+            if m in ('copy', 'index', 'count', '__len__'):
+                return None, lst
+            raise Unknown(norm(e))
+        if any(isinstance(x, ast.Name) and x.id == lst_var for x in ast.walk(e)):
+            if isinstance(e, ast.Call) and dotted(e.func) == 'len':
+                return None, lst
+            raise Unknown(norm(e))
+        return None, lst
+
+    stop_calls = ('self._cleanup_matches',)
+
+    def walk(n, lst, env, depth, visited):
+        if depth > 200 or (n.id, lst) in visited:
+            return
+        visited = visited | {(n.id, lst)}
+        a = n.ast
+        if n.kind == 'cond':
+            ckd = classify_cond(prog, mr, a)
+            nxt = None
+            if ckd.subject == lst_var and ckd.kind == 'is-none':
+                nxt = 'F' if not ckd.negated else 'T'
+            elif ckd.subject == lst_var and ckd.kind == 'truthy':
+                truth = bool(lst)
+                nxt = 'T' if truth != ckd.negated else 'F'
+            elif ckd.subject and ckd.subject.endswith('.once') and ckd.kind == 'truthy':
+                sym = env.get(ckd.subject[:-5])
+                val = once if sym == 's0' else False
+                nxt = 'T' if val != ckd.negated else 'F'
+            elif ckd.kind == 'len-cmp' and ckd.subject == lst_var:
+                try:
+                    val = bool(eval(ckd.detail.replace(f'len({lst_var})', str(len(lst))), {'__builtins__': {}}))
+                    nxt = 'T' if val else 'F'
+                except Exception:
+                    nxt = None
+            for e in cfg.succ[n.id]:
+                if e.label in ('T', 'F') and (nxt is None or e.label == nxt):
+                    walk(e.dst, lst, env, depth + 1, visited)
+            return
+        if n.kind == 'stmt' and a is not None:
+            if any(dotted(c.func) in stop_calls for c in calls_in(n)) or isinstance(a, ast.Return):
+                results.append((n.line, lst, env.get(sel_var)))
+                return
+            try:
+                if isinstance(a, ast.Assign) and len(a.targets) == 1 and isinstance(a.targets[0], ast.Name) and a.targets[0].id != lst_var:
+                    v, lst = ev(a.value, lst, env)
+                    if v is not None or any(isinstance(x, ast.Name) and x.id == lst_var for x in ast.walk(a.value)):
+                        env = dict(env)
+                        env[a.targets[0].id] = v
+                elif isinstance(a, ast.Assign) and isinstance(a.targets[0], ast.Name) and a.targets[0].id == lst_var:
+                    pass     # the lookup of the list itself
+                elif isinstance(a, ast.Expr):
+                    _, lst = ev(a.value, lst, env)
+                elif isinstance(a, ast.Delete):
+                    for t in a.targets:
+                        if isinstance(t, ast.Subscript) and dotted(t.value) == lst_var and isinstance(t.slice, ast.Constant):
+                            l2 = list(lst)
+                            del l2[t.slice.value]
+                            lst = tuple(l2)
+                elif isinstance(a, ast.AugAssign) and dotted(a.target) == lst_var and isinstance(a.value, (ast.List, ast.Tuple)):
+                    l2 = list(lst)
+                    for el in a.value.elts:
+                        v, _ = ev(el, lst, env)
+                        l2.append(v)
+                    lst = tuple(l2)
+                elif any(isinstance(x, ast.Name) and x.id == lst_var and isinstance(x.ctx, ast.Store) for x in ast.walk(a)):
+                    raise Unknown(norm(a))
+            except Unknown as u:
+                raise AnalysisError(f'{mr.qualname}: list operation `{u}` on the patch list is not modelled')
+        for e in cfg.succ[n.id]:
+            if e.label != 'exc':
+                walk(e.dst, lst, env, depth + 1, visited)
+
+    walk(cfg.entry, init, {}, 0, frozenset())
+    return results
 
 
 MUTANTS = [
